@@ -3,7 +3,7 @@
 
 import operator as op
 
-from typing import Any, Dict, List, Tuple, cast
+from typing import Any, Callable, Dict, List, Optional, Tuple, cast
 from functools import reduce
 
 from sweetpea._internal.primitive import Window, DerivedFactor, DerivedLevel, Level
@@ -94,10 +94,16 @@ class DerivationProcessor:
                     valid_indices = [[(block.first_variable_for_level(level.factor, level) if not isinstance(level, BeforeStart) else level)
                                       for level in valid_tuple]
                                      for valid_tuple in valid_tuples]
+                    # Variables of a complex-window factor are laid out after the grid, one group of
+                    # `len(levels)` per applicable trial, so they shift by that amount instead of the grid's trial size
+                    grid_variables = block.grid_variables()
+                    complex_trial_size = lambda idx: (len(block.decode_variable(idx + 1)[0].levels)
+                                                      if idx >= grid_variables else None)
                     shifted_indices = DerivationProcessor.shift_window(valid_indices,
                                                                        level.window,
                                                                        block.variables_per_trial(),
-                                                                       block.sustain_count(factor))
+                                                                       block.sustain_count(factor),
+                                                                       complex_trial_size)
                     level_index = block.first_variable_for_level(factor, level)
                     accum.append(Derivation(level_index, shifted_indices, factor))
             # check that everything in the cross product is covered by some level
@@ -126,7 +132,8 @@ class DerivationProcessor:
     def shift_window(indices: List[List[object]],
                      window: Window,
                      trial_size: int,
-                     sustain_count: int
+                     sustain_count: int,
+                     complex_trial_size: Optional[Callable[[int], Optional[int]]] = None
                      ) -> List[List[object]]:
         """This is a helper function that shifts the indices of
         :func:`.DerivationProcessor.generate_derivations`.
@@ -166,7 +173,8 @@ class DerivationProcessor:
                     if isinstance(idx, BeforeStart):
                         l.append(BeforeStart(idx.ready_at+(len(idx_list) - i - 1)))
                     else:
-                        l.append(cast(int, idx) + i * sustain_count * trial_size)
+                        size = complex_trial_size(cast(int, idx)) if complex_trial_size else None
+                        l.append(cast(int, idx) + i * sustain_count * (trial_size if size is None else size))
                 shifted_sublists.append(l)
             shifted_idxs.append(list(reduce(op.add, shifted_sublists, [])))
 
